@@ -10,6 +10,18 @@ independent oracle: cartesian coordinates computed here in long double from the 
 (own formula, own constant), rounded to nanometres, compared exactly in Coq.  Pairs whose chord lies within a
 guard band around the threshold are accepted either way.  What is compared: the SET of (primary id, secondary
 id) pairs, each once, None iff empty, interval = floor(|dt|) seconds, distance = oracle chord in km.
+
+Clauses decided per call against the Coq evaluation (each a failing input when the hypotheses of its theorem hold:
+ids distinct within a dataset, bin width > 0, whole seconds - all true of every generated call and re-checked here):
+  each_pair_once          the rows of the model carry no id pair twice (theorem); an id pair the implementation
+                          reports twice is a failing input.
+  values_are_of_the_pair  the row of the model for an id pair holds |dt| in whole seconds and the exact integer
+                          chord^2 of exactly these two points (theorem); the implementation's interval must equal the
+                          first and its distance must agree with the second (and with the long-double chord).
+  compaction_consistent   Collocations/pairs and the stored ids of both groups as returned by the implementation are
+                          handed to the certified checker `check_output` (theorems checker_sound /
+                          checker_accepts_model): valid compact dataset, every point stored once, and its expansion
+                          (computed in Coq) is the id-pair list all other comparisons use.
 """
 import datetime as dt
 import math
@@ -165,6 +177,10 @@ def gen_points(rng, n1, n2, r_km, mi_s, big=False):
     sub = rng.random() < 0.5          # sub-second parts
 
     def rtime():
+        if big and rng.random() < 0.06:
+            # exactly on a bin edge of the temporal pre-binning for every bin_factor in use (bins start at midnight with
+            # width bin_factor * max_interval): a point that an inclusive chunk would hand to two bins
+            return (3600 + rng.randint(0, span_s // (30 * mi_s)) * 30 * mi_s) * SEC
         t = rng.randint(0, span_s) * SEC + 3600 * SEC
         if sub:
             t += rng.randrange(0, 1000) * 10 ** 6
@@ -286,11 +302,19 @@ def gen_call(rng, big=False, larger=None, quick=False):
         sizes = [1, 1, 2, 3, 5, 8, 12, 13, 20, 36, 60]
         n1, n2 = rng.choice(sizes), rng.choice(sizes)
     prim, seco = gen_points(rng, n1, n2, r_km, mi_s, big)
-    nanp = rng.choice([0, 0, 0.1, 0.3])
-    add_nans(rng, prim, nanp)
-    add_nans(rng, seco, rng.choice([0, 0, 0.1]))
+    if big:
+        # a handful of NaN points and (quick: never, thorough: one case in three) a window: the product of the selected,
+        # NaN-free points must stay above the threshold of the binned path (measured per run: binned_path_calls)
+        for pts in (prim, seco):
+            for p in rng.sample(pts, rng.choice([0, 1, 3])):
+                p[2] = p[3] = None
+        ws, we, wstyle = (None, None, "none") if (quick or rng.random() < 0.67) else gen_window(rng, prim, seco, mi_s)
+    else:
+        nanp = rng.choice([0, 0, 0.1, 0.3])
+        add_nans(rng, prim, nanp)
+        add_nans(rng, seco, rng.choice([0, 0, 0.1]))
+        ws, we, wstyle = gen_window(rng, prim, seco, mi_s)
     lay = lambda: "grid" if (rng.random() < 0.3 and not big) else "flat"   # noqa
-    ws, we, wstyle = gen_window(rng, prim, seco, mi_s)
     return {"P": to_dataset(rng, prim, lay()), "S": to_dataset(rng, seco, lay()),
             "dist": gen_dist(rng, r_km), "ivl": gen_ivl(rng, mi_s), "start": ws, "end": we, "wstyle": wstyle,
             **gen_tuning(rng)}
@@ -435,8 +459,9 @@ def call_kwargs(c):
             "start": window_arg(c["start"], c["wstyle"]), "end": window_arg(c["end"], c["wstyle"])}
 
 
-def run_call(col, c):
-    """-> None | 'ERR:...' | sorted list of [idp, ids, interval_s, distance_km]"""
+def run_call_full(col, c):
+    """-> (None | 'ERR:...' | sorted list of [idp, ids, interval_ns, distance_km],
+           None | the compact output as returned: {'prow', 'srow', 'pids', 'sids'} (pairs rows, stored ids))"""
     P, S = build_xr(c["P"]), build_xr(c["S"])
     try:
         with warnings.catch_warnings():
@@ -444,32 +469,60 @@ def run_call(col, c):
             np.random.seed(c["seed"])
             r = col.collocate(P, S, **call_kwargs(c))
         if r is None:
-            return None
+            return None, None
         pairs = np.asarray(r["Collocations/pairs"].values).astype(int)
-        idp = np.asarray(r["primary/id"].values)[pairs[0]]
-        ids = np.asarray(r["secondary/id"].values)[pairs[1]]
+        pids = np.asarray(r["primary/id"].values)
+        sids = np.asarray(r["secondary/id"].values)
+        comp = {"prow": [int(x) for x in pairs[0]], "srow": [int(x) for x in pairs[1]],
+                "pids": [int(x) for x in pids], "sids": [int(x) for x in sids]}
+        if pairs.size and (pairs.min() < 0 or pairs[0].max() >= len(pids) or pairs[1].max() >= len(sids)):
+            return (f"ERR:PairsOutOfRange: Collocations/pairs names point {int(pairs[0].max()), int(pairs[1].max())} "
+                    f"(min {int(pairs.min())}) of {len(pids)} x {len(sids)} stored points"), comp
+        idp = pids[pairs[0]]
+        ids = sids[pairs[1]]
         iv = np.asarray(r["Collocations/interval"].values)
         iv = iv.astype("m8[ns]").astype("int64")
         dk = np.asarray(r["Collocations/distance"].values, dtype=float)
         if not (len(idp) == len(ids) == len(iv) == len(dk)):
-            return f"ERR:Shape: pairs {pairs.shape}, interval {iv.shape}, distance {dk.shape}"
-        return sorted([int(a), int(b), int(v), float(x)] for a, b, v, x in zip(idp, ids, iv, dk))
+            return f"ERR:Shape: pairs {pairs.shape}, interval {iv.shape}, distance {dk.shape}", comp
+        comp["iv"], comp["dk"] = [int(v) for v in iv], [float(x) for x in dk]
+        return sorted([int(a), int(b), int(v), float(x)] for a, b, v, x in zip(idp, ids, iv, dk)), comp
     except Exception as e:  # noqa
-        return f"ERR:{type(e).__name__}: {str(e)[:120]}"
+        return f"ERR:{type(e).__name__}: {str(e)[:120]}", None
+
+
+def run_call(col, c):
+    return run_call_full(col, c)[0]
+
+
+BINNED_CALLS = [0]
+
+
+def make_collocator():
+    """a Collocator that counts its calls of the temporally pre-binned search (nothing else is changed)"""
+    from typhon.collocations import Collocator
+
+    class Counting(Collocator):
+        def spatial_search_with_temporal_binning(self, *a, **k):
+            BINNED_CALLS[0] += 1
+            return super().spatial_search_with_temporal_binning(*a, **k)
+    return Counting()
 
 
 def run_history_impl(case):
-    from typhon.collocations import Collocator
-    col = Collocator()
-    out = []
+    """-> (rows per call, compact output per call)"""
+    col = make_collocator()
+    out, comps = [], []
     for c in case["calls"]:
-        out.append(run_call(col, c))
-    return out
+        rows, comp = run_call_full(col, c)
+        out.append(rows)
+        comps.append(comp)
+    return out, comps
 
 
 def run_fresh(c):
     from typhon.collocations import Collocator
-    return run_call(Collocator(), c)
+    return run_call(Collocator(), c)          # not counted
 
 
 # ----------------------------------------------------------------------------- oracle
@@ -594,48 +647,89 @@ def describe(c):
             f"end={window_arg(c['end'], c['wstyle'])!r})")
 
 
-def judge_call(c, o, impl, spec_ids):
-    """-> list of (signature, text) problems of one call against the specification"""
+def ids_distinct(o):
+    """hypothesis of each_pair_once / checker_accepts_model: the ids are distinct within each dataset"""
+    return len({p[0] for p in o["P"]}) == len(o["P"]) and len({p[0] for p in o["S"]}) == len(o["S"])
+
+
+def judge_call(c, o, impl, spec_ids, model_rows=None):
+    """-> list of (signature, text, kind) problems of one call against the specification.
+    model_rows: {(idp, ids): (interval [s], chord^2 [units^2])} as evaluated by the model inside Coq (None: the
+    clauses about the stored values fall back to the harness's own arithmetic)"""
+    FI = "failing-input"
     probs = []
     spec = set(map(tuple, spec_ids))
     bnd = o["boundary"]
     if isinstance(impl, str):
-        return [("error:" + impl.split(":")[1].strip(), f"raised {impl[4:]} (expected {len(spec)} pairs)")]
+        return [("error:" + impl.split(":")[1].strip(), f"raised {impl[4:]} (expected {len(spec)} pairs)", FI)]
     if impl is None:
         need = spec - bnd
         if need:
             one = len(spec) == 1
             return [("none-but-pairs" + ("-single" if one else ""),
-                     f"returned None but {len(spec)} pair(s) are within distance and interval, e.g. ids {sorted(need)[:3]}")]
+                     f"returned None but {len(spec)} pair(s) are within distance and interval, e.g. ids {sorted(need)[:3]}", FI)]
         return []
     got = [(a, b) for a, b, _, _ in impl]
     gs = set(got)
     if len(gs) != len(got):
-        dup = sorted({x for x in got if got.count(x) > 1})[:3]
-        probs.append(("pair-duplicated", f"reports pair(s) {dup} more than once"))
+        # each_pair_once: a failing input under its hypothesis (distinct ids), else only a difference to the model
+        seen, dup = set(), set()
+        for x in got:
+            (dup if x in seen else seen).add(x)
+        probs.append(("pair-duplicated", f"reports pair(s) {sorted(dup)[:3]} more than once ({len(got) - len(gs)} surplus rows; "
+                      "theorem each_pair_once)", FI if ids_distinct(o) else "correspondence"))
     if not got:
-        probs.append(("empty-not-none", "returned a dataset without pairs instead of None"))
+        probs.append(("empty-not-none", "returned a dataset without pairs instead of None", FI))
     missing, extra = spec - gs - bnd, gs - spec - bnd
     if missing:
-        probs.append(("pairs-missing", f"misses {len(missing)} of {len(spec)} pairs within distance and interval, e.g. ids {sorted(missing)[:3]}"))
+        probs.append(("pairs-missing", f"misses {len(missing)} of {len(spec)} pairs within distance and interval, e.g. ids {sorted(missing)[:3]}", FI))
     if extra:
-        probs.append(("pairs-extra", f"reports {len(extra)} pair(s) that are not within distance/interval/window, e.g. ids {sorted(extra)[:3]}"))
+        probs.append(("pairs-extra", f"reports {len(extra)} pair(s) that are not within distance/interval/window, e.g. ids {sorted(extra)[:3]}", FI))
     if missing or extra:
         return probs
+    # values_are_of_the_pair: the row of the model for the same id pair (proved: |dt| in whole seconds and the chord of
+    # exactly these two points); pairs inside the guard band that the model does not report use the harness's arithmetic
     tp = {p[0]: p[1] for p in o["P"]}
     ts = {p[0]: p[1] for p in o["S"]}
+    mrows = model_rows or {}
+    u_km = o["u"] * 1e-12
+    iv_bad = d_bad = None
     for a, b, iv, dk in impl:
         want = (abs(tp[a] - ts[b]) // SEC) * SEC
-        if iv != want:
-            probs.append(("interval-value", f"pair {a, b}: stored interval {iv / SEC} s, actual |dt| = {abs(tp[a] - ts[b]) / SEC} s"))
+        m = mrows.get((a, b))
+        if m is not None and m[0] * SEC != want:
+            probs.append(("model-interval", f"pair {a, b}: the model stores {m[0]} s, |dt| is {abs(tp[a] - ts[b]) / SEC} s "
+                          "(cannot happen while values_are_of_the_pair stands)", "proof"))
             break
-    for a, b, iv, dk in impl[:400]:
-        d = chord_km(o, a, b)
-        # chord from double cartesian coordinates: absolute error of a few ulp of the earth radius (1e-9 m)
-        if not abs(dk - d) <= 1e-9 + 1e-9 * d:
-            probs.append(("distance-value", f"pair {a, b}: stored distance {dk!r} km, straight-line distance {d!r} km"))
-            break
+        if iv != want and iv_bad is None:
+            iv_bad = ("interval-value", f"pair {a, b}: stored interval {iv / SEC} s, actual |dt| = {abs(tp[a] - ts[b]) / SEC} s "
+                      "in whole seconds " + ("(the model's row: %d s; theorem values_are_of_the_pair)" % m[0] if m is not None else ""), FI)
+        if m is not None and d_bad is None:
+            d = math.sqrt(m[1]) * u_km
+            # integer coordinates: each rounded to the unit -> chord within sqrt(3) units; float chord of the implementation
+            if not abs(dk - d) <= 1e-9 + 1e-9 * d + 2.0 * u_km:
+                d_bad = ("distance-value", f"pair {a, b}: stored distance {dk!r} km, the distance of exactly this pair is {d!r} km "
+                         "(the model's row; theorem values_are_of_the_pair)", FI)
+    if iv_bad:
+        probs.append(iv_bad)
+    if d_bad:
+        probs.append(d_bad)
+    else:
+        for a, b, iv, dk in impl[:400]:
+            d = chord_km(o, a, b)
+            # chord from double cartesian coordinates: absolute error of a few ulp of the earth radius (1e-9 m)
+            if not abs(dk - d) <= 1e-9 + 1e-9 * d:
+                probs.append(("distance-value", f"pair {a, b}: stored distance {dk!r} km, straight-line distance {d!r} km", FI))
+                break
     return probs
+
+
+CHK_PREAMBLE = "From Typhon Require Import Model.C04_collocate.\n"
+
+
+def chk_expr(comp):
+    return (f"check_output {core.zlist(comp['prow'])} {core.zlist(comp['srow'])} "
+            f"{core.zlist(comp['pids'])} {core.zlist(comp['sids'])}")
 
 
 def check_cases(ctx, cases, stats, shard=8):
@@ -644,13 +738,25 @@ def check_cases(ctx, cases, stats, shard=8):
     oracles = [[oracle_call(c, unit_nm(case["calls"])) for c in case["calls"]] for case in cases]
     exprs = [case_expr(case, os_) for case, os_ in zip(cases, oracles)]
     t1 = time.time()
-    vals, log = core.coq_eval(ctx.work / "cases", "hist" + ("big" if cases and cases[0]["kind"] == "big" else ""),
-                              PREAMBLE, exprs, shard=shard, timeout=900)
+    # the real code first: what it returns (pairs rows, stored ids) goes through the certified checker inside Coq
+    b0 = BINNED_CALLS[0]
+    impls = [run_history_impl(case) for case in cases]
+    stats["binned_calls"] += BINNED_CALLS[0] - b0           # measured: calls that took the temporally pre-binned path
+    t2 = time.time()
+    big = "big" if cases and cases[0]["kind"] == "big" else ""
+    vals, log = core.coq_eval(ctx.work / "cases", "hist" + big, PREAMBLE, exprs, shard=shard, timeout=900)
     if log:
         ctx.log(log[-1500:])
-    ctx.log(f"{len(cases)} histories: oracle+literals {t1 - t0:.1f}s, Coq evaluation {time.time() - t1:.1f}s")
-    for case, os_, v in zip(cases, oracles, vals):
-        impl = run_history_impl(case)
+    where = [(i, k) for i, (_, comps) in enumerate(impls) for k, comp in enumerate(comps) if comp is not None]
+    cvals, clog = core.coq_eval(ctx.work / "cases", "chk" + big, CHK_PREAMBLE,
+                                [chk_expr(impls[i][1][k]) for i, k in where], shard=max(8, shard * 4), timeout=900)
+    if clog:
+        ctx.log(clog[-1500:])
+    verdicts = dict(zip(where, cvals))
+    ctx.log(f"{len(cases)} histories: oracle+literals {t1 - t0:.1f}s, implementation {t2 - t1:.1f}s, "
+            f"Coq evaluation {time.time() - t2:.1f}s ({len(where)} outputs through check_output)")
+    for i, (case, os_, v) in enumerate(zip(cases, oracles, vals)):
+        impl, comps = impls[i]
         slim = {"id": case["id"], "kind": case["kind"], "calls": [slim_call(c) for c in case["calls"]]}
         if v is None:
             ctx.cov["evaluations"] += len(case["calls"])
@@ -664,29 +770,61 @@ def check_cases(ctx, cases, stats, shard=8):
             if model_ids != spec_sorted:
                 ctx.fail("proof", f"model and specification disagree inside Coq on call {k} (cannot happen while the theorems stand): "
                          f"model {model_ids[:5]}, spec {spec_sorted[:5]}", case=case, signature="model-vs-spec")
-            probs = judge_call(c, o, got, spec_ids)
+            model_rows = {(a, b): (iv, d2) for a, b, iv, d2 in model_q}
+            if len(model_rows) != len(model_q) and ids_distinct(o):
+                ctx.fail("proof", f"the model reports a pair twice on call {k} (cannot happen while each_pair_once stands)",
+                         case=case, signature="model-pair-twice")
+            # compaction_consistent: the output as returned, through check_output (checker_sound / checker_accepts_model)
+            comp = comps[k]
+            if comp is not None:
+                stats["outputs_checked"] += 1
+                cv = verdicts.get((i, k))
+                if cv is None:
+                    ctx.fail("correspondence", f"Coq evaluation of check_output failed on call {k}", case=case, signature="coq-eval-check")
+                else:
+                    valid, once, exp = cv
+                    exp = [tuple(x) for x in exp]
+                    if isinstance(got, list):
+                        # the id pairs of the rows are those Coq expands from the returned arrays
+                        rows = sorted([a, b, iv_, dk_] for (a, b), iv_, dk_ in zip(exp, comp["iv"], comp["dk"]))
+                        if len(exp) != len(comp["iv"]) or rows != got:
+                            ctx.fail("correspondence", f"call {k}: expansion of Collocations/pairs inside Coq differs from the harness's "
+                                     f"own: {rows[:3]} vs {got[:3]}", case=case, signature="expansion-differs")
+                        else:
+                            got = rows
+                    if not valid and isinstance(got, list):
+                        ctx.fail("correspondence", f"{describe(c)}: the compact output is not valid (a stored point without pair, "
+                                 f"or rows of different length): {len(comp['pids'])} x {len(comp['sids'])} stored points, rows "
+                                 f"{comp['prow'][:8]} / {comp['srow'][:8]} (theorem compaction_consistent: every output of the "
+                                 "model is compact_ok)", case=case, impl={x: comp[x][:20] for x in ("prow", "srow", "pids", "sids")},
+                                 signature="compact-invalid")
+                    if not once and ids_distinct(o):
+                        ctx.fail("correspondence", f"{describe(c)}: a point is stored twice in a group of the output (stored ids "
+                                 f"{comp['pids'][:8]} / {comp['sids'][:8]}; theorem stored_points_once)", case=case,
+                                 impl={x: comp[x][:20] for x in ("prow", "srow", "pids", "sids")}, signature="stored-twice")
+            probs = judge_call(c, o, got, spec_ids, model_rows)
             stats["calls"] += 1
             n1, n2 = len(o["P"]), len(o["S"])
-            if n1 * n2 > THRESHOLD:
-                stats["binned_calls"] += 1
             if spec_sorted and len(spec_sorted) < n1 * n2:
                 stats["nontrivial"].add((case["id"], k))
             if len(spec_sorted) == 1 and k == len(case["calls"]) - 1 and case["kind"] == "single00":
                 stats["single00"] += 1
             if k > 0:
                 stats["with_history"] += 1
+            if isinstance(got, list):
+                stats["rows_checked"] += len(got)
             if not probs:
                 continue
             hist = ""
             sigp = ""
             if k > 0:
                 fresh = run_fresh(c)
-                if not judge_call(c, o, fresh, spec_ids):
+                if not judge_call(c, o, fresh, spec_ids, model_rows):
                     sigp = "reused-collocator:"
                     hist = (f" after {k} earlier call(s) on the same Collocator (a fresh Collocator answers correctly: "
                             f"{'None' if fresh is None else str(len(fresh)) + ' pairs'})")
-            for sig, text in probs:
-                ctx.fail("failing-input", f"{describe(c)} {text}{hist}", case=case,
+            for sig, text, kind in probs:
+                ctx.fail(kind, f"{describe(c)} {text}{hist}", case=case,
                          impl=got if not isinstance(got, list) else got[:20], model=spec_sorted[:20],
                          signature=sigp + sig)
         if case["id"] % 9 == 0:
@@ -694,7 +832,8 @@ def check_cases(ctx, cases, stats, shard=8):
 
 
 def new_stats():
-    return {"calls": 0, "binned_calls": 0, "with_history": 0, "single00": 0, "nontrivial": set()}
+    return {"calls": 0, "binned_calls": 0, "with_history": 0, "single00": 0, "nontrivial": set(),
+            "outputs_checked": 0, "rows_checked": 0}
 
 
 def run(ctx):
@@ -706,6 +845,7 @@ def run(ctx):
     bigs = [gen_case(ctx.rng, 100000 + k, big=True, quick=not ctx.thorough) for k in range(n_big)]
     check_cases(ctx, cases, stats, shard=ctx.n(5, 20))
     check_cases(ctx, bigs, stats, shard=1)
+    ctx.log(f"calls on the temporally pre-binned path (counted inside the Collocator): {stats['binned_calls']} of {len(bigs)} big cases")
     ctx.cov["distinct_nontrivial"] = len(stats["nontrivial"])
     ctx.cov["rule"] = ("a call of Collocator.collocate inside a generated history (1-5 calls on one object) is non-trivial when the "
                        "expected pair set is non-empty and smaller than the full product of the two point sets; distinct by "
@@ -715,15 +855,21 @@ def run(ctx):
         kinds[c["kind"]] = kinds.get(c["kind"], 0) + 1
     ctx.cov["input_distribution"] = {
         "histories": len(cases) + len(bigs), "kinds": kinds, "calls": stats["calls"],
-        "calls_on_binned_path(>1e6 candidate pairs)": stats["binned_calls"], "calls_with_history": stats["with_history"],
+        "calls_on_binned_path(measured, >1e6 candidate pairs after selection and NaN filter)": stats["binned_calls"], "calls_with_history": stats["with_history"],
         "single_pair_first_first_cases": stats["single00"],
+        "outputs_through_check_output": stats["outputs_checked"],
+        "rows_compared_with_the_model(interval, distance)": stats["rows_checked"],
     }
     ctx.assumptions += [
         "both thresholds are given and max_interval is a whole number of seconds (hypothesis whole_seconds of pairs_exact; "
         "true for every generated call)",
         "`near` = chord <= max_distance, chord from long-double cartesian coordinates of the doubles handed to typhon, "
         "earth radius 6.3781e6 m; pairs within 1e-4 m + 1e-9 r of the threshold are accepted either way",
-        "ids are unique within a dataset; the main dimension carries unique labels",
+        "ids are unique within a dataset (hypothesis of each_pair_once / stored_points_once; re-checked per call); the main "
+        "dimension carries unique labels",
+        "distance of a pair: the model's exact integer chord^2 of the two points (coordinates rounded to the length unit u of "
+        "the history, <= 3.8 mm at 2000 km radius, 1 nm below 500 km) within 1e-9 km + 1e-9 rel + 2 u, and the long-double chord "
+        "within 1e-9 km + 1e-9 rel for the first 400 rows",
     ]
     return ctx.finish(trusted_base=TRUSTED)
 
